@@ -69,6 +69,13 @@ def build(targets, timeout=1500, jobs=16):
     with Lock():
         ensure_makefile()
         rc, out = sh('timeout %d make -j%d %s' % (timeout, jobs, ' '.join(targets)), timeout=timeout + 30, cwd=COQ)
+        if rc != 0 and 'No rule to make target' in out:
+            # a source listed in the dependency cache vanished (file added/removed since the last coqdep run): rebuild the cache once
+            for f in ('.Makefile.d', 'Makefile', 'Makefile.conf'):
+                try: os.remove(os.path.join(COQ, f))
+                except OSError: pass
+            ensure_makefile()
+            rc, out = sh('timeout %d make -j%d %s' % (timeout, jobs, ' '.join(targets)), timeout=timeout + 30, cwd=COQ)
     res = {'ok': rc == 0, 'out': out[-6000:], 'file': None, 'line': None, 'lemma': None, 'msg': None}
     if rc != 0:
         m = re.search(r'File "\./([^"]+)", line (\d+), characters', out)
@@ -185,6 +192,9 @@ def parse_coq_value(s):
     return v
 
 
+_BUILT = set()
+
+
 def prelude_deps(prelude):
     """.vo targets named by the `From V Require Import A.B C.D.` lines of a case-file prelude"""
     deps = []
@@ -201,11 +211,12 @@ def coq_eval(tag, prelude, items, timeout=600):
     between markers; returns {name: parsed value} or raises RuntimeError with coqc's output.
     The libraries the prelude imports are (re)built first, so a case file never sees a stale .vo."""
     os.makedirs(CASES, exist_ok=True)
-    deps = prelude_deps(prelude)
+    deps = [d for d in prelude_deps(prelude) if d not in _BUILT]
     if deps:
         r = build(deps, timeout=900)
         if not r['ok']:
             raise RuntimeError('cannot build the libraries needed by case file %s: %s' % (tag, r['msg']))
+        _BUILT.update(deps)          # Gen/ is regenerated once per run, so a library built in this run stays current
     path = os.path.join(CASES, tag + '.v')
     body = [prelude, 'Set Printing Width 1000000.', 'Set Printing Depth 1000000.']
     for name, term in items:
